@@ -22,10 +22,17 @@ import (
 
 type c15lExp struct {
 	exported, shuts, flushes, afterSD int
+	bodies                           map[string]int // body of every exported record (bodies are unique per Emit)
 }
 
 func (e *c15lExp) Export(_ context.Context, rs []Record) error {
 	e.exported += len(rs)
+	if e.bodies == nil {
+		e.bodies = map[string]int{}
+	}
+	for i := range rs {
+		e.bodies[rs[i].Body().AsString()]++
+	}
 	if e.shuts > 0 {
 		e.afterSD += len(rs)
 	}
@@ -71,6 +78,7 @@ func c15lSeq(variant string, ops []string) func(x *sched.Exec) {
 		lp := NewLoggerProvider(WithProcessor(proc))
 		old := lp.Logger("old")
 		shutOK, shutTried, shutFailed := false, false, false
+		var lateBodies []string // records emitted after a Shutdown had returned nil: never exported, however late
 		emittedLive := 0
 		where := func(i int) string { return fmt.Sprintf("after %v", ops[:i+1]) }
 		shuts := func() int {
@@ -96,12 +104,16 @@ func c15lSeq(variant string, ops []string) func(x *sched.Exec) {
 					x.Fail("C15|logger-handed-out-after-shutdown-is-not-a-no-op|logs", "%s: a logger obtained from the provider after Shutdown had returned nil reports Enabled (%s)", op, where(i))
 				}
 				var r log.Record
-				r.SetBody(log.StringValue("b"))
+				body := fmt.Sprintf("record emitted by op %d", i)
+				r.SetBody(log.StringValue(body))
 				l.Emit(context.Background(), r)
 				if shutOK {
-					if rec.emits != e0 || exp.exported != x0 {
+					// judged on this very record: a batch processor whose Shutdown was cut short earlier
+					// may still be exporting older records in the background while this Emit runs
+					if rec.emits != e0 || exp.bodies[body] != 0 {
 						x.Fail("C15|telemetry-after-shutdown|logs", "a record emitted (%s) after LoggerProvider.Shutdown had returned nil still reached the processor / exporter (%s)", op, where(i))
 					}
+					lateBodies = append(lateBodies, body)
 				} else if !shutTried {
 					emittedLive++
 					if variant == "rec" && rec.emits != e0+1 {
@@ -148,8 +160,19 @@ func c15lSeq(variant string, ops []string) func(x *sched.Exec) {
 					x.Fail("C15|batch-processor-lost-records-at-shutdown", "Shutdown returned nil; batch processor exported %d of %d records emitted before (%s)", exp.exported, emittedLive, where(i))
 				}
 			}
+			for _, b := range lateBodies {
+				if exp.bodies[b] != 0 {
+					x.Fail("C15|telemetry-after-shutdown|logs", "the record %q, emitted after LoggerProvider.Shutdown had returned nil, was exported later (%s)", b, where(i))
+				}
+			}
 			if exp.afterSD > 0 {
-				x.Fail("C15|export-after-exporter-shutdown|logs", "exporter received records after its Shutdown (%s)", where(i))
+				class := ""
+				if shutFailed {
+					// the provider's Shutdown ran out of time: the batch processor shut the exporter down while
+					// an export was still queued in its buffer
+					class = "|after a Shutdown that was cut short by its context"
+				}
+				x.Fail("C15|export-after-exporter-shutdown|logs"+class, "exporter received records after its Shutdown (%s)", where(i))
 			}
 			if rec.afterSD > 0 {
 				x.Fail("C15|processor-called-after-its-shutdown|logs", "processor OnEmit called after its Shutdown (%s)", where(i))
@@ -180,6 +203,10 @@ func c15lRun(r *enum.R, variant string, ops []string) {
 	}
 	for _, f := range x.Violations {
 		r.Fail(f.Key, cas, rp, "%s", f.Msg)
+	}
+	if r.Replaying() && len(x.Violations) > 0 {
+		y := sched.Run(nil, 6000, true, c15lSeq(variant, ops))
+		fmt.Println("trace of the replayed sequence:\n  " + strings.Join(y.Trace, "\n  "))
 	}
 	r.Outcome(fmt.Sprintf("%s %v %s %d", variant, ops, x.Status, len(x.Violations)))
 }
